@@ -72,7 +72,7 @@ theorem hrefs_set (hnd : List (Option Nat)) (h : Nat) (v : Option Nat) (o : Nat)
 
 /-! ### the vtable operations -/
 
-theorem obj_setobjs (s : St) (o o' : Nat) (x : RObj) (ev : List Ev) (el : List Nat) :
+theorem obj_setobjs (s : St) (o o' : Nat) (x : RObj) (ev : List Ev) (el : List ElEv) :
     ({ s with objs := s.objs.set o x, ev := ev, elog := el } : St).obj o' =
       if o' = o ∧ o < s.objs.length then x else s.obj o' := by
   unfold St.obj; exact getD_set _ _ _ _
@@ -429,5 +429,134 @@ theorem retain_hnd (s : St) (src : Option Nat) : (s.retain src).1.hnd = s.hnd :=
 /-- counts are determined by the invariant: same external references and handles, same counts -/
 theorem count_of_inv (s : St) (hI : Inv s) (x : Nat) : ((s.obj x).count : Int) = (s.obj x).ext + hrefs s.hnd x := by
   have := (hI x).1; simpa using this
+
+/-! ### detach of a library heap buffer -/
+
+/-- a state whose objects have the same counter, flags and external references and whose handles are the
+    same satisfies the same invariant -/
+theorem invP_of_same (s s' : St) (p : Nat → Int) (hI : InvP s p) (hh : s'.hnd = s.hnd)
+    (ho : ∀ x, (s'.obj x).count = (s.obj x).count ∧ (s'.obj x).ext = (s.obj x).ext ∧ (s'.obj x).alive = (s.obj x).alive) :
+    InvP s' p := by
+  intro x
+  obtain ⟨a, b, c⟩ := ho x
+  rw [a, b, c, hh]
+  exact hI x
+
+theorem clearElems_invP (s : St) (p : Nat → Int) (o : Nat) (hI : InvP s p) :
+    InvP { s with objs := s.objs.set o { (s.obj o) with elems := [] } } p := by
+  refine invP_of_same s _ p hI rfl ?_
+  intro x
+  have e : ({ s with objs := s.objs.set o { (s.obj o) with elems := [] } } : St).obj x =
+      if x = o ∧ o < s.objs.length then { (s.obj o) with elems := [] } else s.obj x := by
+    unfold St.obj; exact getD_set _ _ _ _
+  rw [e]
+  split
+  · rename_i h; rw [h.1]; exact ⟨rfl, rfl, rfl⟩
+  · exact ⟨rfl, rfl, rfl⟩
+
+/-- appending a new object that holds one reference -/
+theorem push_invP (s : St) (p : Nat → Int) (nb : RObj) (ev : List Ev) (hI : InvP s p)
+    (hn : nb.count = 1 ∧ nb.ext = 0 ∧ nb.alive = true) :
+    InvP { s with objs := s.objs ++ [nb], ev := ev } (fun x => p x + (if x = s.objs.length then 1 else 0)) := by
+  intro x
+  obtain ⟨h1, h2, h3⟩ := hI x
+  have e : ({ s with objs := s.objs ++ [nb], ev := ev } : St).obj x =
+      if x = s.objs.length then nb else s.obj x := by
+    unfold St.obj
+    simp only [List.getD_eq_getElem?_getD]
+    by_cases hx : x = s.objs.length
+    · subst hx; simp
+    · simp only [hx, ↓reduceIte]
+      rcases Nat.lt_or_ge x s.objs.length with hl | hl
+      · rw [List.getElem?_append_left hl]
+      · have : s.objs.length + 1 ≤ x := by omega
+        rw [List.getElem?_eq_none (by simp; omega), List.getElem?_eq_none hl]
+  rw [e]
+  show _ = _ + (hrefs s.hnd x : Int) + _ ∧ _
+  by_cases hx : x = s.objs.length
+  · subst hx
+    simp only [↓reduceIte, hn.1, hn.2.1, hn.2.2]
+    have hd : s.obj s.objs.length = default := by
+      unfold St.obj; rw [List.getD_eq_getElem?_getD, List.getElem?_eq_none (Nat.le_refl _)]; rfl
+    rw [hd] at h1
+    have hz : ((default : RObj).count : Int) = 0 := by decide
+    have hz2 : ((default : RObj).ext : Int) = 0 := by decide
+    rw [hz, hz2] at h1
+    refine ⟨by simp only [MAXV] at *; omega, by simp [MAXV], fun h => by cases h⟩
+  · simp only [hx, ↓reduceIte, Int.add_zero]; exact ⟨h1, h2, h3⟩
+
+theorem relocate_inv (s : St) (h o newcap : Nat) (clear : Bool) (hI : Inv s) (hh : h < s.hnd.length)
+    (ho : s.hnd.getD h none = some o) : Inv (s.relocate h o newcap clear) := by
+  unfold St.relocate
+  simp only []
+  -- step 1: elements cleared or copies logged
+  have a : ∃ s1 : St, s1 = (if clear = true then ({ s with objs := s.objs.set o { (s.obj o) with elems := [] } } : St)
+      else { s with elog := s.elog ++ (s.obj o).elems.map ElEv.copy }) ∧ InvP s1 (fun _ => 0) ∧ s1.hnd = s.hnd ∧
+      (s1.obj o).count = (s.obj o).count := by
+    refine ⟨_, rfl, ?_, ?_, ?_⟩
+    · by_cases hc : clear = true
+      · simp only [hc, ↓reduceIte]; exact clearElems_invP s _ o hI
+      · simp only [hc, ↓reduceIte]; exact invP_of_same s _ _ hI rfl (fun x => ⟨rfl, rfl, rfl⟩)
+    · by_cases hc : clear = true <;> simp [hc]
+    · by_cases hc : clear = true
+      · simp only [hc, ↓reduceIte]
+        have e : ({ s with objs := s.objs.set o { (s.obj o) with elems := [] } } : St).obj o =
+            if o = o ∧ o < s.objs.length then { (s.obj o) with elems := [] } else s.obj o := by
+          unfold St.obj; exact getD_set _ _ _ _
+        rw [e]; split <;> rfl
+      · simp only [hc, ↓reduceIte]; rfl
+  obtain ⟨s1, hs1, i1, hh1, hc1⟩ := a
+  rw [← hs1]
+  have hp : 1 ≤ (s1.obj o).count := by
+    have h0 := (hI o).1; simp only [Int.add_zero] at h0
+    have := hrefs_pos s.hnd h o ho
+    rw [hc1]; omega
+  have i2 := unref_invP s1 _ o i1 hp
+  have i3 := push_invP (s1.unref o) _
+    { kind := .rbuf, count := 1, alive := true, ext := 0, elems := (s.obj o).elems, cap := newcap }
+    ((s1.unref o).ev ++ [({} : Ev)]) i2 ⟨rfl, rfl, rfl⟩
+  have i4 := sethnd_invP _ _ h (some (s1.unref o).objs.length) i3 (by
+    show h < (s1.unref o).hnd.length
+    rw [unref_hnd, hh1]; exact hh)
+  refine invP_congr _ _ _ i4 (fun x => ?_)
+  show (0 : Int) - ind (some o) x + (if x = (s1.unref o).objs.length then 1 else 0)
+      + ind ((s1.unref o).hnd.getD h none) x - ind (some (s1.unref o).objs.length) x = 0
+  rw [unref_hnd, hh1, ho]
+  generalize (s1.unref o).objs.length = L
+  simp only [ind, Option.some.injEq]
+  by_cases e1 : o = x
+  · subst e1
+    by_cases e2 : o = L
+    · subst e2; simp only [↓reduceIte]; omega
+    · have e2' : ¬ L = o := fun y => e2 y.symm
+      simp only [e2, e2', ↓reduceIte]; omega
+  · by_cases e2 : x = L
+    · subst e2; simp only [e1, ↓reduceIte]; omega
+    · have e2' : ¬ L = x := fun y => e2 y.symm
+      simp only [e1, e2, e2', ↓reduceIte]; omega
+
+theorem detach_inv (s : St) (h len : Nat) (hI : Inv s) (hh : h < s.hnd.length) : Inv (s.detach h len).1 := by
+  unfold St.detach
+  cases ho : s.hnd.getD h none with
+  | none => exact hI
+  | some o =>
+    simp only []
+    split
+    · split
+      · exact hI
+      · exact relocate_inv s h o _ true hI hh ho
+    · split
+      · exact hI
+      · exact relocate_inv s h o _ false hI hh ho
+
+/-- a refused detach changes nothing at all -/
+theorem detach_refused (s : St) (h len : Nat) (hr : (s.detach h len).2 = false) : (s.detach h len).1 = s := by
+  unfold St.detach at hr ⊢
+  cases ho : s.hnd.getD h none with
+  | none => rfl
+  | some o =>
+    simp only [ho] at hr ⊢
+    (repeat' split at hr) <;> first | (cases hr; done) | skip
+    all_goals (repeat' split) <;> first | rfl | simp_all
 
 end Mpt.Refcount
